@@ -38,6 +38,7 @@ import (
 	"sort"
 	"strconv"
 	"strings"
+	"sync"
 	"sync/atomic"
 	"testing"
 	"time"
@@ -483,9 +484,93 @@ func (b *ltrBk) featStrs(k int) []string {
 
 type ltrPeer struct {
 	w   *h.W
+	rw  *ltrReactW
 	rd  api.DeviceRemoteInterface
 	dev string
 	ctr uint64
+}
+
+// ltrReact is one read a peer issued from INSIDE the write of a node-management notification (round 6): the peer
+// is told "entity k added / removed" and asks for the tree at once; the sender writes synchronously, so the read
+// is served while AddEntity / RemoveEntity is still running.
+type ltrReact struct {
+	state string // "added" / "removed" as announced
+	k     int    // slot of the announced entity
+	ctr   uint64 // message counter of the read
+	reply *model.DatagramType
+	stuck bool // the read did not come back within the bound
+}
+
+// ltrReactW is the connection writer of a peer: it records like h.W; in a world with the `r` flag it answers every
+// partial detailed-discovery notification with a detailed-discovery read through the real datagram path, from
+// inside the write, and keeps the reply to that read apart from the ordinary observations.
+type ltrReactW struct {
+	w    *h.W
+	lw   *ltrWorld
+	p    int
+	mu   sync.Mutex
+	busy bool
+	got  []ltrReact
+}
+
+func (w *ltrReactW) WriteShipMessageWithPayload(m []byte) {
+	if w.lw == nil || !w.lw.react {
+		w.w.WriteShipMessageWithPayload(m)
+		return
+	}
+	var d model.Datagram
+	if err := json.Unmarshal(m, &d); err != nil || d.Datagram.Header.CmdClassifier == nil || len(d.Datagram.Payload.Cmd) != 1 {
+		w.w.WriteShipMessageWithPayload(m)
+		return
+	}
+	cl, c := *d.Datagram.Header.CmdClassifier, d.Datagram.Payload.Cmd[0]
+	w.mu.Lock()
+	if w.busy && cl == model.CmdClassifierTypeReply && c.NodeManagementDetailedDiscoveryData != nil && len(w.got) > 0 && w.got[len(w.got)-1].reply == nil {
+		dg := d.Datagram
+		w.got[len(w.got)-1].reply = &dg
+		w.mu.Unlock()
+		return
+	}
+	react := !w.busy && cl == model.CmdClassifierTypeNotify && c.NodeManagementDetailedDiscoveryData != nil
+	if react {
+		_, k, state, _, _ := ltrNotifyStr(w.p, c)
+		w.busy = true
+		w.got = append(w.got, ltrReact{state: state, k: k})
+	}
+	w.mu.Unlock()
+	w.w.WriteShipMessageWithPayload(m)
+	if !react {
+		return
+	}
+	// the read is issued on a goroutine of its own and awaited here, inside the write: the same moment for the
+	// device under test, and a device that cannot serve a read at this moment is reported instead of hanging the run
+	doneC := make(chan uint64, 1)
+	go func() {
+		doneC <- w.lw.send(w.p, model.CmdClassifierTypeRead, nil, false, model.CmdType{NodeManagementDetailedDiscoveryData: &model.NodeManagementDetailedDiscoveryDataType{}})
+	}()
+	w.mu.Lock()
+	i := len(w.got) - 1
+	w.mu.Unlock()
+	select {
+	case ctr := <-doneC:
+		w.mu.Lock()
+		w.got[i].ctr = ctr
+		w.busy = false
+		w.mu.Unlock()
+	case <-time.After(10 * time.Second):
+		w.mu.Lock()
+		w.got[i].stuck = true
+		w.busy = false
+		w.mu.Unlock()
+	}
+}
+
+func (w *ltrReactW) takeReacts() []ltrReact {
+	w.mu.Lock()
+	defer w.mu.Unlock()
+	g := w.got
+	w.got = nil
+	return g
 }
 
 // ltrGate is an entity whose Information() can be made to pause once, so that a discovery read can be held in
@@ -538,6 +623,8 @@ type ltrWorld struct {
 	srcFeature uint   // feature number used as the source of the next datagram (0 = node management)
 	dt         int    // device type index (ltrDTypes)
 	fs         int    // feature set index (ltrFSets; 0 = none given)
+	react      bool   // world flag r: the peers answer a node-management notification with a read from inside the write
+	same       bool   // world flag s: all peers announce one and the same device address (and entity / feature numbering)
 }
 
 // ent is the object handed to AddEntity / RemoveEntity for a slot
@@ -553,20 +640,25 @@ func (lw *ltrWorld) newEnt(k int, et model.EntityTypeType) {
 	lw.gs[k] = &ltrGate{EntityLocal: lw.es[k]}
 }
 
-func newLtrWorld(fails []bool, dt, fs int) *ltrWorld {
+func newLtrWorld(fails []bool, dt, fs int, flags string) *ltrWorld {
 	l := spine.NewDeviceLocal("b", "m", "s", "c", "HEMS", ltrDTypes[dt], ltrFSets[fs])
-	lw := &ltrWorld{l: l, es: map[int]*spine.EntityLocal{}, gs: map[int]*ltrGate{}, fails: fails, dt: dt, fs: fs}
+	lw := &ltrWorld{l: l, es: map[int]*spine.EntityLocal{}, gs: map[int]*ltrGate{}, fails: fails, dt: dt, fs: fs,
+		react: strings.Contains(flags, "r"), same: strings.Contains(flags, "s")}
 	lw.es[0] = l.Entity(spine.NewAddressEntityType([]uint{0})).(*spine.EntityLocal)
 	for k := 1; k < len(ltrSlots); k++ {
 		lw.newEnt(k, ltrETypes[0])
 	}
 	for p := 0; p < 3; p++ {
 		pe := &ltrPeer{w: &h.W{}, dev: fmt.Sprintf("dev%d", p), ctr: 10}
+		if lw.same {
+			pe.dev = "dev0" // two connections (SKIs), one SPINE device address: the peers are told apart by connection only
+		}
+		pe.rw = &ltrReactW{w: pe.w, p: p}
 		ski := fmt.Sprintf("ski%d", p)
 		if p < len(fails) && fails[p] {
 			l.SetupRemoteDevice(ski, nil) // no writer: the Sender of this connection returns an error for every message
 		} else {
-			l.SetupRemoteDevice(ski, pe.w)
+			l.SetupRemoteDevice(ski, pe.rw)
 		}
 		pe.rd = l.RemoteDeviceForSki(ski)
 		lw.peers = append(lw.peers, pe)
@@ -580,6 +672,9 @@ func newLtrWorld(fails []bool, dt, fs int) *ltrWorld {
 		}
 		lw.send(p, model.CmdClassifierTypeReply, util.Ptr(model.MsgCounterType(1)), false, model.CmdType{NodeManagementDetailedDiscoveryData: dd})
 		pe.w.Take()
+	}
+	for _, pe := range lw.peers {
+		pe.rw.lw = lw // reactions start with the history, not with the set-up
 	}
 	return lw
 }
@@ -693,23 +788,27 @@ func ltrAtoi(f []string) []int {
 func runLtrHistory(r *h.Report, d *h.Driver, ops []string) {
 	fails := make([]bool, 3)
 	devT, devF := 0, 3 // default device: energy management system, feature set smart
+	wflags := ""       // r: peers read from inside a notification; s: all peers announce the same device address
 	if len(ops) > 0 && strings.HasPrefix(ops[0], "world ") {
 		fl := strings.Fields(ops[0])
-		if (len(fl) != 2 && len(fl) != 4) || len(fl[1]) != 3 || strings.Trim(fl[1], "01") != "" {
+		if (len(fl) != 2 && len(fl) != 4 && len(fl) != 5) || len(fl[1]) != 3 || strings.Trim(fl[1], "01") != "" || (len(fl) == 5 && (fl[4] == "" || strings.Trim(fl[4], "rs") != "")) {
 			panic("bad op " + ops[0])
+		}
+		if len(fl) == 5 {
+			wflags = fl[4]
 		}
 		for i, c := range fl[1] {
 			fails[i] = c == '1'
 		}
-		if len(fl) == 4 {
-			c := ltrAtoi(fl[2:])
+		if len(fl) >= 4 {
+			c := ltrAtoi(fl[2:4])
 			if c[0] < 0 || c[0] >= len(ltrDTypes) || c[1] < 0 || c[1] >= len(ltrFSets) {
 				panic("bad op " + ops[0])
 			}
 			devT, devF = c[0], c[1]
 		}
 	}
-	lw := newLtrWorld(fails, devT, devF)
+	lw := newLtrWorld(fails, devT, devF, wflags)
 	defer lw.close()
 	d.Ask("reset")
 	ucData := false // SPEC side: use-case data exists (set by the first AddUseCaseSupport)
@@ -884,11 +983,16 @@ func runLtrHistory(r *h.Report, d *h.Driver, ops []string) {
 				panic("world must be the first op")
 			}
 			done = append(done, op)
-			if a := d.Ask(op); a != "ok" {
+			mop := op
+			if len(f) == 5 {
+				mop = strings.Join(f[:4], " ") // the model knows peers by index; addresses and reactions are the harness's
+				r.Eval("worldflags:"+f[4], "")
+			}
+			if a := d.Ask(mop); a != "ok" {
 				panic("driver: " + a)
 			}
 			r.Eval("world:"+f[1], "")
-			if len(f) == 4 {
+			if len(f) >= 4 {
 				r.Eval("device:"+f[2]+"/"+f[3], "")
 			}
 			continue
@@ -1158,6 +1262,7 @@ func runLtrHistory(r *h.Report, d *h.Driver, ops []string) {
 
 		// ---- what the peers received: canonical observation + SPEC monitor
 		var obs []string
+		var reactCmp [][3]string // peer, announced state, reply to the read issued from inside the notification
 		if ret != "" {
 			obs = append(obs, ret)
 		}
@@ -1267,6 +1372,37 @@ func runLtrHistory(r *h.Report, d *h.Driver, ops []string) {
 				}
 				obs = append(obs, ltrReply(r, lw, bk, p, dg, monitor, done, alts, nil))
 			}
+			// ---- reads issued from inside the write of a notification (world flag r). SPEC, model-free: a peer that
+			// has been told "entity k removed" does not find k in the reply to a read it issues at that very moment, a
+			// peer told "added" finds it; and the reply is the tree as it is after the operation (the bookkeeping was
+			// updated above). Differential: the same reply is what the model answers to a read after the operation.
+			reacts := lw.peers[p].rw.takeReacts()
+			if lw.react && monitor && len(reacts) != len(rc.notifies) {
+				fail("read-inside-notification-count", fmt.Sprintf("after %s peer %d received %d discovery notifications and issued %d reads from inside them", op, p, len(rc.notifies), len(reacts)))
+			}
+			for _, rr := range reacts {
+				r.Eval("react:"+rr.state, "")
+				if rr.stuck || rr.reply == nil {
+					if monitor {
+						fail("read-inside-notification-unanswered", fmt.Sprintf("peer %d was told entity %s %s and issued a detailed-discovery read from inside that write: no reply (read returned=%v)", p, h.EntU(ltrSlots[max(rr.k, 0)]), rr.state, !rr.stuck))
+					}
+					continue
+				}
+				listed := false
+				for _, ei := range rr.reply.Payload.Cmd[0].NodeManagementDetailedDiscoveryData.EntityInformation {
+					if ei.Description != nil && ei.Description.EntityAddress != nil && ltrSlotOf(ei.Description.EntityAddress.Entity) == rr.k {
+						listed = true
+					}
+				}
+				if monitor && rr.state == "removed" && listed {
+					fail("entity-announced-removed-still-in-reply", fmt.Sprintf("peer %d was told entity %s is removed; the reply to the read it issued at that moment still lists it", p, h.EntU(ltrSlots[max(rr.k, 0)])))
+				}
+				if monitor && rr.state == "added" && !listed {
+					fail("entity-announced-added-not-in-reply", fmt.Sprintf("peer %d was told entity %s is added; the reply to the read it issued at that moment does not list it", p, h.EntU(ltrSlots[max(rr.k, 0)])))
+				}
+				got := ltrReply(r, lw, bk, p, *rr.reply, monitor, done, nil, nil)
+				reactCmp = append(reactCmp, [3]string{strconv.Itoa(p), rr.state, got})
+			}
 		}
 		if f[0] == "adduc" {
 			ucData = true
@@ -1294,6 +1430,12 @@ func runLtrHistory(r *h.Report, d *h.Driver, ops []string) {
 		if impl != want {
 			r.Mismatch(done, impl, want, "tree op "+op)
 			return
+		}
+		for _, c := range reactCmp {
+			if want := d.Ask("read " + c[0]); c[2] != want {
+				r.Mismatch(done, c[2], want, fmt.Sprintf("read of peer %s from inside the '%s' notification of %s (model: a read after the operation)", c[0], c[1], op))
+				return
+			}
 		}
 	}
 	r.Traces++
@@ -1590,6 +1732,28 @@ func ltrGenHistory(rng *rand.Rand, n int) []string {
 }
 
 // ---- reads overlapping additions
+
+// ltrGenFlagged: a history of the ordinary generator in a world with flags (r: peers read from inside a notification;
+// s: one device address for all peers). With r the held reads are left out (their operation is performed plainly): a
+// held read and a read from inside a notification of one peer at the same time would not be told apart.
+func ltrGenFlagged(rng *rand.Rand, n int, flags string) []string {
+	ops := ltrGenHistory(rng, n)
+	w := "world 000"
+	if len(ops) > 0 && strings.HasPrefix(ops[0], "world ") {
+		w, ops = ops[0], ops[1:]
+	}
+	if len(strings.Fields(w)) == 2 {
+		w += " 0 3"
+	}
+	out := []string{w + " " + flags}
+	for _, op := range ops {
+		if f := strings.Fields(op); strings.Contains(flags, "r") && len(f) == 5 && f[0] == "readheld" {
+			op = strings.Join(f[3:], " ")
+		}
+		out = append(out, op)
+	}
+	return out
+}
 
 var ltrOvlOps int // ops performed while a read was held (generator floor)
 
@@ -2134,7 +2298,24 @@ func TestLocalTree(t *testing.T) {
 	for i, n := 0, h.Scale(1500, 15000); i < n; i++ {
 		runLtrHistory(r, d, ltrGenHistory(rng, 20+rng.Intn(50)))
 	}
+	// round 6: worlds in which the peers answer a node-management notification with a detailed-discovery read from
+	// INSIDE the write (flag r: the read is served while AddEntity / RemoveEntity is still running) and worlds in
+	// which all three connections announce one and the same device address (flag s: peers are told apart by
+	// connection only); same generator, same model, same monitor
+	for _, c := range [][]string{
+		{"world 000 0 3 r", "sub 0", "sub 2", "renew 1 1", "renew 2 2", "feat 1 0 1", "fn 1 1 0 1 1", "feat 2 3 0", "attach 1", "attach 2", "read 1", "detach 1", "read 0", "adduc 2", "detach 2", "attach 1", "detach 1"},
+		{"world 000 0 3 s", "sub 0", "sub 1", "sub 2", "renew 1 1", "feat 1 0 1", "attach 1", "adduc 1", "read 0", "read 1", "unsub 1", "detach 1", "attach 1", "sub 1", "unsub 0", "detach 1", "read 2"},
+		{"world 010 1 2 rs", "sub 2", "sub 1", "sub 0", "renew 3 3", "feat 3 1 1", "attach 3", "detach 3", "unsub 2", "attach 3", "detach 3"},
+	} {
+		runLtrHistory(r, d, c)
+	}
+	for i, n := 0, h.Scale(400, 4000); i < n; i++ {
+		runLtrHistory(r, d, ltrGenFlagged(rng, 20+rng.Intn(40), []string{"r", "s", "rs", "r"}[i%4]))
+	}
 	d.Close()
+	if r.MismatchN == 0 {
+		r.Floor("reads issued from inside an 'added' / 'removed' notification", min(r.Dist["react:added"], r.Dist["react:removed"]), h.Scale(400, 4000), 0.5)
+	}
 	// floors describe the generator on complete histories; histories cut short by a disagreement distort them
 	// (and the disagreement is reported anyway)
 	if r.MismatchN == 0 {
